@@ -300,9 +300,10 @@ def compile_props(prop_id, thorough=False):
     out["assumptions_reported"] = len(ax)
     if thorough:
         t0 = time.time()
-        p = subprocess.run(f"timeout 1500 coqchk -silent -o -Q . V V.props.{prop_id} 2>&1 | tail -40", shell=True, cwd=COQ,
+        p = subprocess.run(f"timeout 1500 coqchk -silent -o -Q . V V.props.{prop_id}", shell=True, cwd=COQ,
                            stdout=subprocess.PIPE, stderr=subprocess.STDOUT, text=True)
-        out["coqchk"] = {"s": round(time.time() - t0, 1), "tail": p.stdout[-1500:], "ok": "Modules were successfully checked" in p.stdout}
+        out["coqchk"] = {"s": round(time.time() - t0, 1), "tail": p.stdout[-1500:], "rc": p.returncode,
+                         "ok": p.returncode == 0 and "CONTEXT SUMMARY" in p.stdout}
         out["checker_cmd"] += f" ; coqchk -silent -o -Q . V V.props.{prop_id}"
     return out
 
